@@ -4,7 +4,9 @@ import (
 	"go/ast"
 	"go/token"
 	"go/types"
+	"regexp"
 	"sort"
+	"strconv"
 	"strings"
 
 	"golang.org/x/tools/go/ssa"
@@ -357,11 +359,27 @@ func runC04(c *Ctx) {
 			if cov {
 				for _, d := range u.RecoverDefers(f) {
 					if mc, ok := d.Call.Value.(*ssa.MakeClosure); ok {
-						for _, s := range u.StoresToField(mc.Fn.(*ssa.Function), "RpcError", "Type") {
+						rfn := mc.Fn.(*ssa.Function)
+						for _, s := range u.StoresToField(rfn, "RpcError", "Type") {
 							if v, ok := ConstString(s.Val); ok && v == "RuntimeError" {
 								rt = true
 							}
 						}
+						// every error the recover branch assigns to a captured variable is that fresh RuntimeError
+						Instrs(rfn, func(in ssa.Instruction) {
+							st, ok := in.(*ssa.Store)
+							if !ok || !isErrorType(derefType(st.Addr.Type())) {
+								return
+							}
+							v := st.Val
+							if mi, ok := v.(*ssa.MakeInterface); ok {
+								v = mi.X
+							}
+							if al, ok := v.(*ssa.Alloc); !ok || typeShort(al.Type()) != "*RpcError" {
+								rt = false
+								r.Viol("R-HANDLER-RECOVER", shortName(f)+"|recover-assigns "+u.Describe(st.Val), u.Pos(in.Pos()), "the recover branch assigns "+u.Describe(st.Val)+" as the call's error: a panic must always surface as RuntimeError, never as the panic value's own type")
+							}
+						})
 					}
 				}
 			}
@@ -683,6 +701,15 @@ func runC10(c *Ctx) {
 		argD := u.Describe(ck.Arg(1)) + " / " + u.Describe(ck.Arg(2))
 		r.Check(onTrue && strings.Contains(argD, `"vgi_rpc.protocol_version"`), "R-GATE-PRESENT", s.fn+"|check-args", u.Pos(ck.Instr.Pos()),
 			"gate compares the request's vgi_rpc.protocol_version entry: "+argD, "checkProtocolVersion is not applied to the request's vgi_rpc.protocol_version entry under protocolVersionSet: "+argD)
+		// with a declared version, EVERY path from the gate to dispatch runs the check (no per-connection / cached bypass)
+		for _, d := range u.Calls(fn, s.dispatch) {
+			tb := gateIf.Block().Succs[0]
+			_, bypass := ReachWithout(fn, tb.Instrs[0], isInstr(d.Instr), isInstr(ck.Instr))
+			if tb.Instrs[0] == ck.Instr {
+				bypass = false
+			}
+			r.Check(!bypass, "R-GATE-PRESENT", s.fn+"|no-bypass "+d.Callee, u.Pos(ck.Instr.Pos()), "once a version is declared every path to dispatch runs checkProtocolVersion", "with protocolVersionSet true a path reaches "+d.Callee+" without calling checkProtocolVersion (an extra condition or cached verdict skips the gate)")
+		}
 		// gate dominates dispatch
 		for _, d := range u.Calls(fn, s.dispatch) {
 			r.Check(Dominates(gateIf, d.Instr), "R-GATE-PRESENT", s.fn+"|dominates "+d.Callee, u.Pos(d.Instr.Pos()), "dispatch only after the gate decision", d.Callee+" is reachable without passing the protocol-version gate")
@@ -731,6 +758,71 @@ func runC10(c *Ctx) {
 				strings.Contains(gs, "parseSemver(clientVersion)#3 == nil") && strings.Contains(gs, "present")
 			r.Check(okG, "R-SEMVER", "checkProtocolVersion|admit", u.Pos(in.Pos()), "admits only present ∧ parsed ∧ major== ∧ minor==", "checkProtocolVersion admits under guards: "+gs)
 		})
+	}
+	// R-DIRECTION: "client is too old" is chosen exactly under major < serverMajor ∨ (major == serverMajor ∧ minor < serverMinor)
+	if f := u.Func("(*Server).checkProtocolVersion"); f != nil {
+		found := false
+		Instrs(f, func(in ssa.Instruction) {
+			// the block whose computed message contains the client-too-old text
+			b, ok := in.(*ssa.BinOp)
+			if !ok || b.Op != token.ADD {
+				return
+			}
+			s, isC := ConstString(b.X)
+			if !isC || !strings.Contains(s, "client is too old") {
+				return
+			}
+			found = true
+			blk := in.Block()
+			var preds []string
+			okD := len(blk.Preds) == 2
+			for _, p := range blk.Preds {
+				ifi, isIf := p.Instrs[len(p.Instrs)-1].(*ssa.If)
+				if !isIf || p.Succs[0] != blk {
+					okD = false
+					continue
+				}
+				cd := u.Describe(ifi.Cond)
+				gd := strings.Join(u.GuardStrings(ifi), " && ")
+				preds = append(preds, cd+" under "+gd)
+				isMajor := strings.Contains(cd, "parseSemver(clientVersion)#0 < ") && strings.Contains(cd, "protocolVersionParts[0]")
+				isMinor := strings.Contains(cd, "parseSemver(clientVersion)#1 < ") && strings.Contains(cd, "protocolVersionParts[1]") &&
+					strings.Contains(gd, "(parseSemver(clientVersion)#0 == &s.protocolVersionParts[0])")
+				if !isMajor && !isMinor {
+					okD = false
+				}
+			}
+			r.Check(okD, "R-DIRECTION", "checkProtocolVersion|client-too-old", u.Pos(in.Pos()), "client named as the side to upgrade exactly when major < server ∨ (major == server ∧ minor < server)",
+				"the 'client is too old' message is chosen under {"+strings.Join(preds, " | ")+"}: for some version pairs the message names the wrong side")
+		})
+		if !found {
+			r.Undec("R-DIRECTION", "checkProtocolVersion", u.Pos(f.Pos()), "directional message constant not found")
+		}
+	}
+	// R-SEMVER-REGEX: the admission pattern is the canonical-semver language on a decision table
+	if pat, ok := c.globalRegexPattern("semverRegex"); ok {
+		re, err := regexp.Compile(pat)
+		if err != nil {
+			r.Undec("R-SEMVER-REGEX", "semverRegex", "-", "pattern does not compile: "+err.Error())
+		} else {
+			accept := []string{"0.0.0", "1.2.3", "10.20.30", "1.0.0", "0.1.0", "123456789.0.99"}
+			reject := []string{"", "1", "1.2", "1.2.3.4", "01.2.3", "1.02.3", "1.2.03", "00.0.0", "1.2.3-rc1", "1.2.3+build", "v1.2.3", " 1.2.3", "1.2.3 ", "1.2.3\n", "1..3", "-1.2.3", "+1.2.3", "1.2.x", "1,2,3", "١.٢.٣", "1.2.3\x00"}
+			var bad []string
+			for _, s := range accept {
+				if !re.MatchString(s) {
+					bad = append(bad, "rejects canonical "+strconv.Quote(s))
+				}
+			}
+			for _, s := range reject {
+				if re.MatchString(s) {
+					bad = append(bad, "admits "+strconv.Quote(s))
+				}
+			}
+			r.Check(len(bad) == 0, "R-SEMVER-REGEX", "semverRegex|decision-table", "-", "pattern "+pat+" decides "+itoa(len(accept)+len(reject))+" table entries as canonical MAJOR.MINOR.PATCH requires",
+				"the version pattern "+pat+" "+strings.Join(bad, ", ")+": non-canonical versions pass (or canonical ones fail) the gate")
+		}
+	} else {
+		r.Undec("R-SEMVER-REGEX", "semverRegex", "-", "pattern constant not found")
 	}
 	if f := c.Fn("R-SEMVER", "parseSemver"); f != nil {
 		for _, cs := range u.Calls(f, Is("strconv.Atoi")) {
@@ -874,6 +966,71 @@ func runC37(c *Ctx) {
 		// the handlerErr alloc passed to the hook
 		var errAlloc ssa.Value = sh[0].Arg(4)
 		c.errIffErrorResponse(fn, sh[0].Instr, errAlloc)
+	}
+	// the HTTP hook plumbing: start and end calls recover-covered (recover called directly by the deferred function)
+	if sd := c.Fn("R-HTTP-HOOK-RECOVER", "(*HttpServer).startDispatchHook"); sd != nil {
+		nh := 0
+		InstrsDeep(sd, func(g *ssa.Function, in ssa.Instruction) {
+			ci, ok := in.(ssa.CallInstruction)
+			if !ok {
+				return
+			}
+			n := u.CalleeName(ci.Common())
+			if !strings.HasSuffix(n, "DispatchHook.OnDispatchStart") && !strings.HasSuffix(n, "DispatchHook.OnDispatchEnd") {
+				return
+			}
+			nh++
+			r.Check(u.CoveredByRecover(in), "R-HTTP-HOOK-RECOVER", "startDispatchHook|"+n, u.Pos(in.Pos()), "hook call runs under a deferred function that calls recover() itself", "the hook call is not under a deferred function that calls recover() directly (recover() in a helper called from the deferred closure returns nil): a panicking hook escapes the HTTP handler and aborts the response")
+		})
+		if nh != 2 {
+			r.Undec("R-HTTP-HOOK-RECOVER", "startDispatchHook", u.Pos(sd.Pos()), "expected one start and one end hook call")
+		}
+	}
+	// converse direction: once handlerErr holds a definite error the client is not sent a success response
+	for _, name := range []string{"(*HttpServer).handleUnary", "(*HttpServer).handleStreamInit", "(*HttpServer).handleStreamExchange"} {
+		fn := u.Func(name)
+		if fn == nil {
+			continue
+		}
+		sh := u.Calls(fn, Is("(*HttpServer).startDispatchHook"))
+		if len(sh) != 1 {
+			continue
+		}
+		errAlloc := sh[0].Arg(4)
+		ok200 := func(in ssa.Instruction) bool {
+			cs, ok := in.(*ssa.Call)
+			if !ok || u.CalleeName(&cs.Call) != "(*HttpServer).writeArrow" {
+				return false
+			}
+			k, isC := ConstInt(cs.Call.Args[2])
+			return isC && k == 200
+		}
+		k := 0
+		Instrs(fn, func(in ssa.Instruction) {
+			st, ok := in.(*ssa.Store)
+			if !ok || st.Addr != errAlloc {
+				return
+			}
+			if cst, isC := st.Val.(*ssa.Const); isC && cst.Value == nil {
+				return
+			}
+			// IPC serialisation failures into the response buffer are reported although the (possibly short) body still goes out
+			if call := rootCall(st.Val); call != nil {
+				cn := u.CalleeName(&call.Call)
+				if cn == "WriteUnaryResponse" || cn == "WriteVoidResponse" || cn == "writeStateTokenBatch" || strings.HasSuffix(cn, "ipc.Writer).Close") || cn == "(*HttpServer).runProduceLoopCapped" || cn == "(*HttpServer).runProduceLoop" {
+					return
+				}
+			}
+			k++
+			_, reach := ReachWithout(fn, in, ok200, func(x ssa.Instruction) bool {
+				s2, ok := x.(*ssa.Store)
+				return ok && s2.Addr == errAlloc && x != in
+			})
+			r.Check(!reach, "R-ERR-ONLY-IF-ERROR-RESPONSE", name+"|store "+u.Describe(st.Val), u.Pos(in.Pos()), "after this error is recorded no success response is written", "handlerErr is set to "+u.Describe(st.Val)+" and the handler then answers with a plain 200 success: OnDispatchEnd is told the call failed although the client got its result")
+		})
+		if k == 0 {
+			r.Undec("R-ERR-ONLY-IF-ERROR-RESPONSE", name, u.Pos(fn.Pos()), "no handlerErr assignments found")
+		}
 	}
 	// continuation helpers: after an error write they return non-nil
 	for _, name := range []string{"(*HttpServer).handleExchangeCall", "(*HttpServer).handleProducerContinuation"} {
